@@ -96,7 +96,7 @@ let do_step (f : state -> state * event list) caller =
 let () =
   try while true do
     let line = String.trim (input_line stdin) in
-    match String.split_on_char ' ' line with
+    (match String.split_on_char ' ' line with
     | ["TP"; f; b] -> passes := !passes @ [ (api_of_string f, bt_of_string b) ]
     | ["TR"; b; f] -> runs := !runs @ [ (bt_of_string b, api_of_string f) ]
     | ["TC"] -> passes := []; runs := []
@@ -139,5 +139,6 @@ let () =
           | None -> Printf.printf " %d:0:-1" k) ks;
       print_newline ()
     | [""] | ["Q"] -> ()
-    | _ -> print_endline "ERR"
+    | _ -> print_endline "ERR");
+    flush stdout
   done with End_of_file -> ()
